@@ -165,3 +165,33 @@ Proof. reflexivity. Qed.
 Theorem detect_highlevel_spec env term :
   detect_highlevel env term = if detect_with [screen_b; tmux_b] env term then 1%nat else 0%nat.
 Proof. reflexivity. Qed.
+
+(* ------------------------------------------------------------------ re-configuration of a live high-level terminal *)
+Lemma src_highlevel_setter_propagates : highlevel_setter_propagates = true.  Proof. reflexivity. Qed.
+
+(* with a propagating setter the two counts agree after every assignment *)
+Lemma hl_step_consistent s op : cfg_layers (hl_step true s op) = term_layers (hl_step true s op).
+Proof. destruct op; reflexivity. Qed.
+Lemma hl_run_consistent ops : forall s, cfg_layers s = term_layers s -> cfg_layers (hl_run true s ops) = term_layers (hl_run true s ops).
+Proof.
+  unfold hl_run. induction ops as [|op r IH]; intros s H; cbn [fold_left]; [exact H|].
+  apply IH. apply hl_step_consistent.
+Qed.
+Lemma hl_run_last ops op s : hl_run true s (ops ++ [op]) = hl_step true (hl_run true s ops) op.
+Proof. unfold hl_run. rewrite fold_left_app. reflexivity. Qed.
+
+(* after `t.num_tmux_layers = n` (whatever was assigned before) every command is wrapped n times: it unwraps, the way tmux
+   does, to the bare command *)
+Theorem reconfigured_wraps_n ops n s c : has_byte 27 c = false ->
+  let s' := hl_run true s (ops ++ [SetLayers n]) in
+  cfg_layers s' = n /\
+  exists out out0, hl_emit s' c = Some out /\ emit 0 c = Some out0 /\ TmuxSpec.unwrapn n out = Some out0.
+Proof.
+  intros Hc s'. subst s'. rewrite hl_run_last. cbn [hl_step cfg_layers]. split; [reflexivity|].
+  unfold hl_emit. cbn [term_layers]. apply unwrapn_emit. exact Hc.
+Qed.
+(* the pinned tree: the configuration says 2, the commands are not wrapped at all *)
+Theorem unpropagated_setter_refuted :
+  let s' := hl_run false {| cfg_layers := 0; term_layers := 0 |} [SetLayers 2] in
+  cfg_layers s' = 2%nat /\ hl_emit s' [97] = emit 0 [97] /\ hl_emit s' [97] <> emit 2 [97].
+Proof. cbv zeta. split; [reflexivity|]. split; [reflexivity|]. vm_compute. discriminate. Qed.
